@@ -1214,9 +1214,13 @@ def geobox_union_conservative(geoboxes: List[GeoBox]) -> GeoBox:
 
     reference, *_ = geoboxes
 
-    bbox = bbox_union(
+    # all have to be on the same grid
+    bboxes = [
         bounding_box_in_pixel_domain(geobox, reference=reference) for geobox in geoboxes
-    )
+    ]
+    # .. but those without any pixels do not stretch the result
+    with_pixels = [bb for bb, gbox in zip(bboxes, geoboxes) if not gbox.is_empty()]
+    bbox = bbox_union(with_pixels) if with_pixels else bboxes[0]
 
     affine = reference.affine * Affine.translation(*bbox[:2])
     return GeoBox(shape=bbox.shape, affine=affine, crs=reference.crs)
